@@ -7,10 +7,13 @@ Case lines (shared with harness/c04/c04.c):
   cfgint <index> <value>                      config_int[index] (indices regenerated: Gen.C04.cfg*)
   depth <n> | stack <n>                       MaxCallDepth / StackSize of the case
   mset set_handler_catches <0|1>              the master's error_handler completes a catch()
+  reconf MaxEvaluationCost <v>                the budget as read by init_config () (clamped)
+  ev sizes set_limit <n>                      the budget as set by LPC set_eval_limit (n) (clamped)
   shape <term>                                the abstract shape of the LPC program loaded as `p` (ignored by the harness)
   ev p main                                   one driver-started evaluation of the program
   sz <constructor> <args...>                  one size decision
 
+(the generator emits one LPC function per node, so every node is a `call` around its construct)
 shape terms:  K | W<n> | S | R<locals> | X | F<locals>(<t>) | C(<t>) | B<k>(<t>) | A(<t>) | Q(<t>,<t>) | E | T
 -/
 import NV.Common.Proto
@@ -35,12 +38,15 @@ def parseSh : Nat → List Char → Option (Sh × List Char)
   | 0, _ => none
   | f + 1, cs =>
     match cs with
-    | 'K' :: r => some (.skip, r)
-    | 'S' :: r => some (.spin, r)
+    | 'K' :: r => some (.call 0 .skip, r)
+    | 'S' :: r => some (.call 0 .spin, r)
     | 'X' :: r => some (.crecur, r)
-    | 'E' :: r => some (.err, r)
-    | 'T' :: r => some (.throw_, r)
-    | 'W' :: r => let (d, r) := takeDigits r; some (.work (natOf d), r)
+    | 'E' :: r => some (.call 0 .err, r)
+    | 'T' :: r => some (.call 0 .throw_, r)
+    | 'W' :: r => let (d, r) := takeDigits r; some (.call 0 (.work (natOf d)), r)
+    -- N<k>: an efun making k callbacks to a function that does not exist (map_array (allocate (k), "nosuch", ob)):
+    -- no frame, no code, one tick per callback charged by call_efun_callback - the same as k instructions
+    | 'N' :: r => let (d, r) := takeDigits r; some (.call 0 (.work (natOf d)), r)
     | 'R' :: r => let (d, r) := takeDigits r; some (.recur (natOf d), r)
     | 'F' :: r =>
       let (d, r) := takeDigits r
@@ -53,25 +59,29 @@ def parseSh : Nat → List Char → Option (Sh × List Char)
       let (d, r) := takeDigits r
       (match r with
        | '(' :: r => (match parseSh f r with
-                      | some (b, ')' :: r) => some (.cb (natOf d) b, r)
+                      | some (b, ')' :: r) => some (.call 0 (.cb (natOf d) b), r)
                       | _ => none)
        | _ => none)
     | 'C' :: '(' :: r =>
       (match parseSh f r with
-       | some (b, ')' :: r) => some (.catch_ b, r)
+       | some (b, ')' :: r) => some (.call 0 (.catch_ b), r)
        | _ => none)
     | 'A' :: '(' :: r =>
       (match parseSh f r with
-       | some (b, ')' :: r) => some (.safe b, r)
+       | some (b, ')' :: r) => some (.call 0 (.safe b), r)
        | _ => none)
     | 'Q' :: '(' :: r =>
       (match parseSh f r with
        | some (a, ',' :: r) =>
          (match parseSh f r with
-          | some (b, ')' :: r) => some (.seq a b, r)
+          | some (b, ')' :: r) => some (.call 0 (.seq a b), r)
           | _ => none)
        | _ => none)
     | _ => none
+
+/-- the largest k of an `N<k>` node in a shape term (callbacks that execute no instruction) -/
+def noCodeOf (t : String) : Nat :=
+  ((t.splitOn "N").drop 1).foldl (fun m part => max m (natOf (takeDigits part.toList).1)) 0
 
 def parseShape (s : String) : Option Sh :=
   match parseSh (s.length + 1) s.toList with
@@ -168,8 +178,30 @@ def szCmd (l : Limits) (ctor : String) (a : List Int) : Option SzR :=
     some (andThen (str x) fun p => andThen (repeatString 2 y l.maxString) fun q =>
       andThen (stringJoin p q l.maxString) fun _ => andThen (str r) fun rl =>
         replaceFamily p (q / 2) rl l.maxString.toNat)
+  -- copies and parts of operands (mirrors harness/mudlib/c04/sizes.c)
+  | "copy_array", [n] => some (andThen (allocateArray n l.maxArray) sameSize)
+  | "copy_mapping", [n] => some (andThen (mapInsertMany 0 n.toNat l.maxMapping) sameSize)
+  | "sort_array", [n] => some (andThen (allocateArray n l.maxArray) sameSize)
+  | "map_array", [n] => some (andThen (allocateArray n l.maxArray) sameSize)
+  | "lower_case", [n] => some (andThen (str n) sameSize)
+  | "filter_array", [n, kept] => some (andThen (allocateArray n l.maxArray) fun a => partOf a kept.toNat)
+  | "unique_array", [n, groups] =>
+    some (andThen (allocateArray n l.maxArray) fun a => partOf a (if groups ≤ 0 then a else groups.toNat))
+  | "array_sub", [n, k] =>
+    some (andThen (allocateArray n l.maxArray) fun a => andThen (allocateArray k l.maxArray) fun b => partOf a (a - b))
+  | "array_and", [n, k] =>
+    some (andThen (allocateArray n l.maxArray) fun a => andThen (allocateArray k l.maxArray) fun b => partOf a b)
+  | "keys", [n] => some (andThen (mapInsertMany 0 n.toNat l.maxMapping) fun c => mapKeys c l.maxArray)
+  | "values", [n] => some (andThen (mapInsertMany 0 n.toNat l.maxMapping) fun c => mapKeys c l.maxArray)
+  | "allocate_mapping", [n] => some (allocateMapping n)
+  | "sprintf_pad", [w, n] =>
+    -- sprintf ("%*s", w, s): padded to the field width; the pad goes through the same bounded buffer
+    some (andThen (str n) fun p =>
+      -- no padding when the string fills the field: the string is the first chunk (any size, see sprintfAdd)
+      if w.toNat ≤ p then andThen (sprintfAdd 0 p) fun r => sprintfFinish r l.maxString
+      else if w.toNat > ushrtMax then .err else sprintfFinish w.toNat l.maxString)
   | "sprintf", [x, y] =>
-    some (andThen (str x) fun p => andThen (str y) fun q => andThen (sprintfAdd 0 p) fun real => sprintfAdd real q)
+    some (andThen (str x) fun p => andThen (str y) fun q => andThen (sprintfAdd 0 p) fun real => andThen (sprintfAdd real q) fun r => sprintfFinish r l.maxString)
   | _, _ => none
 
 def setCfgInt (l : Limits) (idx : Nat) (v : Int) : Limits :=
@@ -190,7 +222,7 @@ def runEv (p : Parsed) : List String :=
   let evs := s.evs.reverse.filterMap renderEv
   let last := match out with
     | .ok => "r ret 0"
-    | .raised _ => if cfg.handlerCatches then "r err" else s!"r err es={s.es}"
+    | .raised _ => s!"r err es={s.es}"
     | .fuel => "timeout"
   evs ++ [last]
 
@@ -211,10 +243,25 @@ def parseLine (mode : Bool) (p : Parsed) (line : String) : Parsed :=
     match n.toInt? with
     | some n => { p with lim := { p.lim with stack := n } }
     | none => { p with bad := line :: p.bad }
+  | ["reconf", "MaxEvaluationCost", v] =>
+    -- the value goes through init_config (): clamped to at least 1
+    match v.toInt? with
+    | some v => { p with lim := { p.lim with cost := clampCost v } }
+    | none => { p with bad := line :: p.bad }
+  | ["ev", "sizes", "set_limit", v] =>
+    -- set_eval_limit (n), n other than 0 / 1 / -1: MaxEvaluationCost = (int) n, clamped to at least 1; the LPC
+    -- function returns the new budget
+    match v.toInt? with
+    | some v =>
+      let c := clampCost (toInt32 v)
+      { p with lim := { p.lim with cost := c }, out := if mode then s!"r ret {c}" :: p.out else p.out }
+    | none => { p with bad := line :: p.bad }
   | ["mset", "set_handler_catches", v] => { p with lim := { p.lim with handlerCatches := v != "0" } }
   | ["shape", t] =>
     match parseShape t with
-    | some sh => { p with shape := sh, lim := { p.lim with hasSafe := sh.hasSafe, catchDepth := sh.catchDepth } }
+    | some sh =>
+      let lim := { p.lim with hasSafe := sh.hasSafe, catchDepth := sh.catchDepth, noCodeCallbacks := noCodeOf t }
+      { p with shape := sh, lim := lim }
     | none => { p with bad := line :: p.bad }
   | ["ev", _, _] => if mode then { p with out := (runEv p).reverse ++ p.out } else p
   | "sz" :: ctor :: args =>
